@@ -19,7 +19,7 @@ VARIABLES script,   \* segments still to be played
 svars == <<script, seg, left, fam, kf>>
 allvars == <<vars, svars>>
 
-NoSeg == [i |-> InOf(NoObs), k |-> <<>>, d |-> 0]
+NoSeg == [i |-> InOf(NoObs), k |-> <<>>, d |-> 0, rst |-> FALSE]
 
 TVal(name) == CASE name = "T2P5US" -> T2P5US [] name = "T5US" -> T5US [] name = "T200US" -> T200US
                 [] name = "T1MS" -> T1MS [] name = "T2MS" -> T2MS [] name = "T2P5MS" -> T2P5MS
@@ -30,7 +30,9 @@ Dur(sg) == Max(1, SumK(sg.k) + sg.d)          \* a segment lasts sum-of-named-th
 
 Ctl0 == [vbus |-> TRUE, disc |-> FALSE, fso |-> FALSE, lso |-> FALSE, busy |-> FALSE]
 S(ls, c, k, d) == [i |-> [ls |-> ls, vbus |-> c.vbus, disc |-> c.disc, fso |-> c.fso, lso |-> c.lso,
-                          busy |-> c.busy], k |-> k, d |-> d]
+                          busy |-> c.busy], k |-> k, d |-> d, rst |-> FALSE]
+\* the usb clock domain is held in reset for d cycles
+R(ls, c, d) == [S(ls, c, <<>>, d) EXCEPT !.rst = TRUE]
 IdleOf(c)   == IF c.lso THEN FSK ELSE FSJ
 ResumeOf(c) == IF c.lso THEN FSJ ELSE FSK
 
@@ -75,22 +77,24 @@ TSusp(c)   == {<<S(ResumeOf(c), c, <<>>, d)>> : d \in 1..3}
               \cup {<<S(SE0, [c EXCEPT !.fso = TRUE], <<"T2P5US">>, d), S(FSJ, c, <<>>, 2)>> : d \in 1..3}
               \cup {<<S(IdleOf(c), [c EXCEPT !.lso = ~c.lso], <<>>, 2)>>}
 TDisc(c)   == {<<S(IdleOf(c), [c EXCEPT !.disc = TRUE], <<"T2P5US">>, d), S(IdleOf(c), c, <<>>, 3)>> : d \in -1..3}
+TDomRst(c) == {<<R(x, c, d), S(y, c, <<>>, 2)>> : x \in {SE0, FSJ, FSK}, d \in 1..2, y \in {SE0, FSJ}}
 TVbus(c)   == {<<S(x, [c EXCEPT !.vbus = FALSE], <<>>, d)>> : x \in {SE0, IdleOf(c)}, d \in 1..3}
 
 Ctls == {Ctl0, [Ctl0 EXCEPT !.fso = TRUE], [Ctl0 EXCEPT !.lso = TRUE]}
 
 \* The host first picks a kind of move (according to what it can observe), then one instance of it.
 Families(o) ==
-  IF HsMode(o) THEN {"hs_idle", "hs_idle_b", "hs_misc"}
-  ELSE IF o.susp THEN {"susp"}
-  ELSE IF o.op = CHIRP THEN {"chirp", "glitch"}
+  IF HsMode(o) THEN {"hs_idle", "hs_idle_b", "hs_misc", "hs_misc_b", "dom_rst"}
+  ELSE IF o.susp THEN {"susp", "susp_b", "susp_c", "dom_rst"}
+  ELSE IF o.op = CHIRP THEN {"chirp", "chirp_b", "glitch", "dom_rst"}
   ELSE {"idle", "se0", "glitch", "disc", "vbus", "reset", "reset_b", "reset_c", "no_answer", "busy",
-        "restrict", "reset_ls"}
+        "restrict", "reset_ls", "dom_rst"}
 Family(f) ==
   CASE f \in {"hs_idle", "hs_idle_b"} -> THsIdle(Ctl0)
-    [] f = "hs_misc"   -> THsMisc(Ctl0)
-    [] f = "susp"      -> UNION {TSusp(c) : c \in Ctls}
-    [] f = "chirp"     -> THostChirp(Ctl0)
+    [] f \in {"hs_misc", "hs_misc_b"} -> THsMisc(Ctl0)
+    [] f \in {"susp", "susp_b", "susp_c"} -> UNION {TSusp(c) : c \in Ctls}
+    [] f \in {"chirp", "chirp_b"} -> THostChirp(Ctl0)
+    [] f = "dom_rst"   -> TDomRst(Ctl0)
     [] f = "glitch"    -> TGlitch(Ctl0)
     [] f = "idle"      -> UNION {TIdle(c) : c \in Ctls}
     [] f = "se0"       -> UNION {TSe0(c) : c \in Ctls}
@@ -124,10 +128,10 @@ SPick == /\ left = 0 /\ script = <<>> /\ fam # ""
 SLoad == /\ left = 0 /\ script # <<>>
          /\ seg' = Head(script) /\ script' = Tail(script) /\ fam' = fam
          /\ left' = Dur(Head(script)) - 1
-         /\ Cycle(Head(script).i)
+         /\ CycleR(Head(script).i, Head(script).rst)
          /\ Clean
 SHold == /\ left > 0
-         /\ Cycle(seg.i)
+         /\ CycleR(seg.i, seg.rst)
          /\ Clean
          /\ left' = left - 1
          /\ UNCHANGED <<script, seg, fam>>
